@@ -261,7 +261,10 @@ func opCases(c *Ctx) {
 func declResult(d *Decl) string {
 	desc, typ, untyped, err := verifhook.ConstEval(d.Program(), "C")
 	if err != nil {
-		return "err:" + scErrClass(err.Error())
+		if cl := scErrClass(err.Error()); cl != "fault" {
+			return "err:" + cl
+		}
+		return "fault"
 	}
 	u := "t"
 	if untyped {
@@ -542,6 +545,13 @@ func signature(d *Decl, v verdict) string {
 		if v.near {
 			return "float-rounding-visible"
 		}
+		if v.kind == "value" && e.K == "conv" && (strings.HasPrefix(e.Kind, "float") || strings.HasPrefix(e.Kind, "complex")) && (goClass(e.X) == "uf" || goClass(e.X) == "uc") {
+			// a rational that is not a float64 is rounded to 512 bits first, then to the float type
+			return "rat-float-double-rounding"
+		}
+		if strings.HasPrefix(v.kind, "accepts:") && e.K == "bin" && e.Op == ">>" && (goClass(e.X) == "uf" || goClass(e.X) == "uc") {
+			return "shr-of-float-above-512-bits"
+		}
 		if d.T != "" {
 			if w := compare((&Decl{E: e}).Program()); w.kind == "" && w.soft {
 				return "float-rounding-visible"
@@ -645,6 +655,19 @@ func expectedPrint(decl string) (string, bool) {
 	return fmt.Sprintln(v), true
 }
 
+func report(c *Ctx, d *Decl, v verdict) {
+	md, mv := shrink(d, v)
+	if oracleDefect(md, mv) {
+		c.Count("oracle-defect-minint64-div-minus1")
+		return
+	}
+	sig := signature(md, mv)
+	det := mv.det
+	det["decl"] = md.Src()
+	det["found_in"] = d.Src()
+	c.Fail(sig, det)
+}
+
 func sweep(c *Ctx) {
 	seenSample := 0
 	one := func(d *Decl) {
@@ -656,16 +679,7 @@ func sweep(c *Ctx) {
 			return
 		}
 		if v.kind != "" {
-			md, mv := shrink(d, v)
-			if oracleDefect(md, mv) {
-				c.Count("oracle-defect-minint64-div-minus1")
-				return
-			}
-			sig := signature(md, mv)
-			det := mv.det
-			det["decl"] = md.Src()
-			det["found_in"] = d.Src()
-			c.Fail(sig, det)
+			report(c, d, v)
 			return
 		}
 		if v.soft {
@@ -714,6 +728,11 @@ func sweep(c *Ctx) {
 	np := c.N / 10
 	for i := 0; i < np; i++ {
 		d := g.decl(1 + i%3)
+		if v := compare(d.Program()); v.kind != "" && v.kind != "generator" {
+			c.Count("evaluations")
+			report(c, d, v)
+			continue
+		}
 		printCheck(c, d.Src())
 	}
 }
